@@ -64,7 +64,10 @@ class SymBitArray(list):
         return out
 
     def to01(self):
-        return "".join(str(core.cur().concretize(b)) for b in self)
+        c = core.cur()
+        if c.format_shadow:  # text rendering: representative value, no fork (see SymInt.__format__)
+            return "".join(str(core.cv_of(b)) for b in self)
+        return "".join(str(c.concretize(b)) for b in self)
 
 
 def _make_sym_bitarray(real_bitarray):
